@@ -21,7 +21,7 @@ def format_classes(ctx):
     out = {}
     dicts = [d for d in ast.walk(pd.node) if isinstance(d, ast.Dict)]
     # the built-in format map may also be a class-level constant of the dumper
-    for st in fd.node.body:
+    for st in list(fd.node.body) + list(fd.module.tree.body):
         if isinstance(st, ast.Assign) and isinstance(st.value, ast.Dict):
             dicts.append(st.value)
     for d in dicts:
